@@ -276,16 +276,21 @@ pub fn worker(
             if !seen_classes.contains(&key) && seen_classes.len() < 6 {
                 seen_classes.insert(key);
                 let (min_sc, used) = check.minimise(&sc, &v, 300);
-                // re-run the minimised scenario to get its own detail text
+                // re-run the minimised scenario to get its own detail text and the executed
+                // schedule-and-fault trace (every step the scheduler chose, every fault fired)
+                copia_simworld::kernel::arm_trace_dump();
                 let v2 = check
                     .execute_value(&min_sc)
                     .ok()
                     .and_then(|r| r.violation)
                     .unwrap_or_else(|| v.clone());
+                let trace = copia_simworld::kernel::take_trace_dump();
                 let dir = verif_dir().join("replays");
                 let _ = std::fs::create_dir_all(&dir);
                 let path = dir.join(format!("{}-{}.json", check.id(), run_seed));
-                let body = replay_file_json(check.id(), run_seed, &min_sc, &v2);
+                let mut body = replay_file_json(check.id(), run_seed, &min_sc, &v2);
+                body["schedule_and_fault_trace"] = json!(trace);
+                body["minimisation"] = json!({"re_executions": used});
                 let _ = std::fs::write(&path, serde_json::to_vec_pretty(&body).unwrap_or_default());
                 s.violations.push(ViolRec {
                     run_index: i,
